@@ -17,6 +17,11 @@ Decided structurally (PBasic.cpp only):
                 (step<0 || v<=max) && (step>0 || v>=max); the continuing branch jumps to the loop's home line
   C17.chain     precedence is the strict chain expr > andexpr > relexpr > sexpr > term > upexpr > factor (each level parses its
                 operands with the next level; ^ is right-associative)
+  C17.datacursor  READ / RESTORE: the editor (phreeqci_gui) and batch branches are the same algorithm
+  C17.let       LET re-installs the saved target element after evaluating the right-hand side
+  C17.findline  a jump to an undefined line is an error: findline's search loop, evaluated over {cursor null, non-null} x
+                {num < n, num = n, num > n}, continues exactly while the cursor exists and its number differs from n; it returns the
+                cursor; the batch branch of mustfindline raises `Undefined line` on NULL
 Not decided: (e) arithmetic/string results for all programs, (f) malformed programs always give a BASIC error.
 """
 import json
@@ -179,6 +184,110 @@ def guisibling_rule(P, R):
                         % (SH.first_difference(a, b),), file=f["file"], line=x[1], function=f["q"])
 
 
+def findline_rule(P, R):
+    """"Malformed programs produce a BASIC error": a jump (GOTO, GOSUB, IF..THEN n, ON..GOTO, RESTORE n, RUN n) to a line number
+    that does not exist is rejected.  findline(n) is an exact-match search - its loop continues exactly while the current line
+    exists and its number differs from n (the condition is evaluated over null/non-null x {num < n, num = n, num > n}) and it
+    returns the cursor; mustfindline reports `Undefined line` whenever findline returned NULL (batch branch)."""
+    RULE = "C17.findline"
+    R.rule(RULE, "findline(n) returns the line numbered exactly n or NULL; mustfindline raises an error on NULL", minimum=3)
+    f = P.one("PBasic::findline")
+    where = dict(file=f["file"], function=f["q"])
+    loops = [x for x in T.walk(f["body"]) if x[0] in ("While", "For")]
+    if len(loops) != 1:
+        R.anchor_missing(RULE, "findline: expected one search loop, found %d" % len(loops))
+        return
+    cond = loops[0][2] if loops[0][0] == "While" else loops[0][3]
+
+    class Unknown(Exception):
+        pass
+
+    def ev(n, null, d):
+        n = T.strip_casts(n)
+        if n[0] == "Paren":
+            return ev(n[2], null, d)
+        if n[0] == "Un" and n[2] == "!":
+            return not ev(n[3], null, d)
+        if n[0] == "Ref" and n[2] == "local" and "linerec" in str(n[4]):
+            return not null                      # pointer used as a truth value
+        if n[0] == "Bin" and n[2] in ("&&", "||"):
+            a = ev(n[3], null, d)
+            if n[2] == "&&":
+                return a and ev(n[4], null, d)   # short circuit: the right side is not evaluated on a null cursor
+            return a or ev(n[4], null, d)
+        if n[0] == "Bin" and n[2] in ("==", "!=", "<", "<=", ">", ">="):
+            a, b = T.strip_casts(n[3]), T.strip_casts(n[4])
+            isptr = lambda z: z[0] == "Ref" and z[2] == "local" and "linerec" in str(z[4])
+            isnull = lambda z: z[0] == "Lit" and str(z[3]) in ("0", "nullptr", "NULL")
+            if (isptr(a) and isnull(b)) or (isptr(b) and isnull(a)):
+                if n[2] == "==":
+                    return null
+                if n[2] == "!=":
+                    return not null
+                raise Unknown(T.text(n))
+            isnum = lambda z: z[0] == "Member" and z[2] == "linerec::num"
+            ispar = lambda z: z[0] == "Ref" and z[2] == "param"
+            if isnum(a) and ispar(b):
+                if null:
+                    raise Unknown("dereference of a null cursor")
+                x, y = d, 0
+            elif ispar(a) and isnum(b):
+                if null:
+                    raise Unknown("dereference of a null cursor")
+                x, y = 0, d
+            else:
+                raise Unknown(T.text(n))
+            return {"==": x == y, "!=": x != y, "<": x < y, "<=": x <= y, ">": x > y, ">=": x >= y}[n[2]]
+        raise Unknown(T.text(n))
+    bad = None
+    try:
+        for null in (True, False):
+            for d in (-1, 0, 1):
+                want = (not null) and d != 0
+                got = ev(cond, null, d)
+                if got != want:
+                    bad = (null, d, got)
+                    break
+            if bad:
+                break
+    except Unknown as e:
+        R.anchor_missing(RULE, "findline: loop condition `%s` is outside the evaluated fragment (%s)" % (T.text(cond)[:60], e))
+        return
+    if bad:
+        null, d, got = bad
+        R.violation(RULE, "findline:loop", "the search loop `%s` %s when the current line number is %s the target: findline returns a line that is not numbered n, so a jump to an "
+                    "undefined line silently continues at another line instead of raising `Undefined line`"
+                    % (T.text(cond)[:70], "continues" if got else "stops", {-1: "less than", 0: "equal to", 1: "greater than"}[d]), line=loops[0][1], **where)
+    else:
+        R.ok(RULE, "findline:loop", "continues iff cursor != NULL and num != n (6 cases evaluated)")
+    rets = [x for x in T.walk(f["body"]) if x[0] == "Return"]
+    if len(rets) == 1 and T.is_node(rets[0][2]) and T.strip_casts(rets[0][2])[0] == "Ref" and T.strip_casts(rets[0][2])[2] == "local":
+        R.ok(RULE, "findline:return", "returns the cursor")
+    else:
+        R.violation(RULE, "findline:return", "findline does not return the search cursor", line=f["line"], **where)
+    m = P.one("PBasic::mustfindline")
+    okm = False
+    for x in T.walk(m["body"]):
+        if x[0] == "If" and not any(y[0] == "Member" and y[2] in ("PBasic::phreeqci_gui", "PBasic::parse_whole_program") for y in T.walk(x[2])):
+            c = T.strip_casts(x[2])
+            if c[0] == "Bin" and c[2] == "==" and any(T.strip_casts(z)[0] == "Lit" for z in (c[3], c[4])) and any(T.callee_name(k) == "errormsg" for k in T.calls(x[3])):
+                okm = True
+    # the batch branch is the else of `if (phreeqci_gui)`
+    top = [x for x in m["body"][2] if x[0] == "If" and T.strip_casts(x[2])[0] == "Member" and T.strip_casts(x[2])[2] == "PBasic::phreeqci_gui"]
+    batch_ok = False
+    if top and T.is_node(top[0][4]):
+        for x in T.walk(top[0][4]):
+            if x[0] == "If":
+                c = T.strip_casts(x[2])
+                if c[0] == "Bin" and c[2] == "==" and any(T.strip_casts(z)[0] == "Lit" and str(T.strip_casts(z)[3]) == "0" for z in (c[3], c[4])) \
+                        and any(T.callee_name(k) == "errormsg" for k in T.calls(x[3])):
+                    batch_ok = True
+    if batch_ok:
+        R.ok(RULE, "mustfindline", "batch branch: l == NULL -> errormsg(\"Undefined line\")")
+    else:
+        R.violation(RULE, "mustfindline", "the batch branch of mustfindline does not raise an error when findline returned NULL", file=m["file"], line=m["line"], function=m["q"])
+
+
 def let_rule(P, R):
     """LET / assignment to an array element: findvar() hands an element back by re-pointing the variable record's value
     pointer, and evaluating the right-hand side may call findvar() on the same array again.  cmdlet therefore saves the
@@ -213,6 +322,7 @@ def let_rule(P, R):
 def run(P, R, tier):
     guisibling_rule(P, R)
     let_rule(P, R)
+    findline_rule(P, R)
     R.undecided += ["(e) arithmetic and string results for all programs", "(f) malformed programs produce a BASIC error, never a wrong value or a hang"]
     ens = [e for e in P.enums.values() if e["q"].endswith("BASIC_TOKEN")]
     if len(ens) != 1:
